@@ -146,7 +146,7 @@ def first_appeared():
             if 'chacha20' in name or name.endswith('-cbc') or 'etm@' in name:
                 continue      # suppressed for Terrapin reasons when not offered
             for v in e[0][0].split(','):
-                prod, ver, is_cli = Algorithm.get_ssh_version(v)
+                prod, ver, is_cli = H.db_version(v)
                 if ver and not is_cli and prod in out:
                     out[prod].setdefault(ver, (cat, name))
     return out
@@ -292,7 +292,22 @@ def check_timeframes(st, tier):
     for fs in (True, False, None):
         for i, (_c, _n, v) in enumerate(vl):
             singles[(fs, i)] = frame_of([v], fs)
-    idx = range(len(vl))
+    # what the tool reads out of a single list must be versions that list really names (independent decoding of the descriptors)
+    broken = set()
+    for i, (_c, name, v) in enumerate(vl):
+        allowed = {}
+        for field in v:
+            for d in (field or '').split(','):
+                if d:
+                    prod, ver, _cli = H.db_version(d)
+                    allowed.setdefault(prod, set()).add(ver)
+        for fs in (True, False, None):
+            for prod, vals in singles[(fs, i)].items():
+                for x in vals:
+                    if x is not None and x not in allowed.get(prod, set()):
+                        broken.add(i)
+                        st.violation('compatibility-range:version-not-in-database-entry:%s' % prod, {'algorithm': name, 'version_info': v, 'tool_reads': x, 'entry_names': sorted(allowed.get(prod, []))})
+    idx = [i for i in range(len(vl)) if i not in broken]
     combos = list(itertools.permutations(idx, 2))
     tri = list(itertools.permutations(idx, 3))
     if tier == 'quick':
@@ -334,7 +349,11 @@ def work_compat_cli(chunk, st):
         st.execution(res.world, outcome=('compat', res.status), root=('compat', json.dumps(lists, sort_keys=True)), nontrivial=('compat', json.dumps(lists, sort_keys=True)))
         m = re.search(r'^\(gen\) compatibility: (.*)$', res.stdout, re.M)
         got = m.group(1).strip() if m else None
-        want_f = combine([frame_of([db[c][n][0]], True) for c in lists for n in lists[c] if n in db[c] and db[c][n][0]])
+        try:
+            want_f = combine([frame_of([db[c][n][0]], True) for c in lists for n in lists[c] if n in db[c] and db[c][n][0]])
+        except ValueError as e:
+            st.violation('compatibility-range:version-not-numeric', {'lists': lists, 'what': str(e)})
+            continue
         parts = []
         for prod in ('OpenSSH', 'Dropbear SSH'):
             if prod not in want_f or want_f[prod][0] is None:
